@@ -190,6 +190,31 @@ def check(case):
     return tags
 
 
+def check_long_vectors(case):
+    """selection_rate / mean_prediction / count on vectors whose length is around a multiple of 65536."""
+    from fairlearn.metrics import count, mean_prediction, selection_rate
+
+    rs = np.random.RandomState(case["seed"])
+    n = case["n"]
+    yp = rs.randint(0, 2, size=n)
+    w = rs.randint(1, 4, size=n).astype(float) if case["weighted"] else None
+    kw = {} if w is None else {"sample_weight": w}
+    exp = float(yp.mean()) if w is None else float((w * yp).sum() / w.sum())
+    for name, f in (("selection_rate", selection_rate), ("mean_prediction", mean_prediction)):
+        got = f(yp, yp, **kw)
+        if np.ndim(got) != 0 or abs(float(got) - exp) > 1e-12:
+            raise PropertyViolation(f"{name} on {n} rows = {got!r}, weighted fraction from the rows = {exp!r}")
+    if count(yp, yp) != n:
+        raise PropertyViolation(f"count on {n} rows = {count(yp, yp)!r}")
+    return ["nt"] + (["n%65536==0"] if n % 65536 == 0 else [])
+
+
+@st.composite
+def _long_vector_cases(draw):
+    return {"n": draw(st.sampled_from([65536, 131072, 196608, 131073, 65537, 200000, 262144, 1048576])), "seed": draw(st.integers(0, 2**31 - 1)),
+            "weighted": draw(st.booleans())}
+
+
 def check_mean_prediction(case):
     from fairlearn.metrics import mean_prediction, selection_rate
 
@@ -314,4 +339,6 @@ SUBS = [
     Sub("rates_exhaustive", check, enumerate=_enumerate, shards=16, exhaustive=True),
     Sub("mean_prediction", check_mean_prediction, strategy=_mp_cases, quick=600, thorough=10000, shards=4,
         floors={"nt": 0.2, "weighted": 0.191, "int_predictions_real_weights": 0.05, "column_shaped_weights": 0.051}),
+    Sub("long_vectors", check_long_vectors, strategy=_long_vector_cases, quick=16, thorough=200, shards=8, shrink_quick=False,
+        floors={"n%65536==0": 0.3}),
 ]
